@@ -252,7 +252,7 @@ VARIANTS: List[Variant] = [
     M("cli-error-falls-through", CLI,
       'algorithm: you need to provide leaf syntenies",\n                file=sys.stderr,\n            )\n            return None',
       'algorithm: you need to provide leaf syntenies",\n                file=sys.stderr,\n            )', "ERROR-PATH"),
-    M("cli-status-zero", CLI, "    if results is None:\n        return 1", "    if results is None:\n        return 0", "ERROR-PATH"),
+    M("cli-status-zero", CLI, "    if results is None:\n        return 1", "    if results is None:\n        return 0", "CLI-FLOW-TABLE"),
     M("cli-cost-constant", CLI, 'print("Minimum cost:", results[0].cost(), file=sys.stderr)', 'print("Minimum cost:", 0, file=sys.stderr)', "CLI-COST-SOURCE"),
     M("cli-cost-option-missing", CLI, '    EdgeEvent.SEGMENTAL_LOSS: ("sloss", "a segmental loss"),\n', "", "COST-OPTIONS"),
     M("cli-registry-lambda", CLI, '    "lca": reconcile_lca,', '    "lca": lambda rec_input: reconcile_lca(rec_input),', "REGISTRY-SIGNATURE"),
@@ -594,6 +594,17 @@ VARIANTS += [
 ]
 # ---- fourth round: rules derived from the mutation sweep and the fourth batch of seeded changes
 VARIANTS += [
+    M("cli-arity-negated", CLI, "    if len(params) == 1:", "    if len(params) != 1:", "CLI-FLOW-TABLE"),
+    M("cli-empty-results-kept", CLI, "    if not results:\n        return None\n", "", "CLI-FLOW-TABLE"),
+    M("cli-results-test-inverted", CLI, "    if not results:", "    if results:", "CLI-FLOW-TABLE"),
+    M("cli-status-two", CLI, "    if results is None:\n        return 1", "    if results is None:\n        return 2", "CLI-FLOW-TABLE"),
+    M("cli-no-newline", CLI, "        json.dump(result.to_dict(), args.output)\n        print(file=args.output)", "        json.dump(result.to_dict(), args.output)", "CLI-FLOW-TABLE"),
+    M("cli-cost-on-stdout", CLI, "print(\"Minimum cost:\", results[0].cost(), file=sys.stderr)", "print(\"Minimum cost:\", results[0].cost(), file=args.output)", "CLI-FLOW-TABLE"),
+    M("cli-none-test-inverted", CLI, "    if output is None:", "    if output is not None:", "CLI-FLOW-TABLE"),
+    M("cli-policy-ignored", CLI, "            getattr(RetentionPolicy, args.solutions.upper()),", "            RetentionPolicy.ANY,", "CLI-FLOW-TABLE", "POLICY-FLOW"),
+    M("cli-super-algo-called-anyway", CLI, "            return None\n\n    if len(params) == 1:", "\n    if len(params) == 1:", "CLI-FLOW-TABLE", "ERROR-PATH"),
+    T("twin-cli-status-local", CLI, "    if results is None:\n        return 1", "    if results is None:\n        status = 1\n        return status"),
+    T("twin-cli-none-eq", CLI, "    if output is None:", "    if output == None:"),
     Variant("twin-segdist-count-on-close", "utils/subsequences.py", [
         ("    in_segm = not edges\n    dist = 0\n", "    in_segm = False\n    leading = not edges\n    dist = 0\n"),
         ("            if not bit_child:\n                if not in_segm:\n                    dist += 1\n                    in_segm = True\n            elif in_segm:\n                in_segm = False\n",
